@@ -147,7 +147,8 @@ class ModbusTransactionManager(object):
                     else:
                         full = False
                     c_str = str(self.client)
-                    if "modbusudpclient" in c_str.lower().strip():
+                    datagram = "modbusudpclient" in c_str.lower().strip()
+                    if datagram:
                         full = True
                         if not expected_response_length:
                             expected_response_length = Defaults.ReadSize
@@ -185,7 +186,8 @@ class ModbusTransactionManager(object):
                             delay = 2 ** (self.retries - retries) * self.backoff
                             time.sleep(delay)
                             _logger.debug("Sleeping {}".format(delay))
-                        full = False
+                        # a datagram has to be read in one go, also on a retry
+                        full = datagram
                         broadcast = False
                         retries -= 1
                     addTransaction = partial(self._addReply, request)
